@@ -146,7 +146,7 @@ def main():
             "guard": "verif (Go build tag)",
             "enable": "go build -tags verif; the harness module /verif/harness has `replace github.com/PowerDNS/lightningstream => /repo`, so every check recompiles /repo's working tree with the hooks on",
             "baseline_off_cmd": "cd /repo && GOFLAGS=-mod=mod GOPROXY=off go test -json -vet=off -count=1 -timeout 25m ./...",
-            "source_commits": ["8d4a027", "7fa356f", "8f021c6"],
+            "source_commits": ["8d4a027", "7fa356f", "8f021c6", "1a34499"],
             "add_only": True,
         },
         "engines": [{"name": "runner", "path": "/verif/harness/runner", "serves_properties": sorted(CHECKS),
